@@ -182,6 +182,11 @@ Theorem T02_handler_codec_rel_server :
 Proof. exact handler_codec_rel_server. Qed.
 Print Assumptions T02_handler_codec_rel_server.
 
+(* http.Handler variant: a response whose body copy failed is never finished like a complete message. *)
+Theorem T02_handler_truncated_not_finished : handler_finishes_message true = false.
+Proof. exact (f_equal negb ob_handler_copy_error_aborts). Qed.
+Print Assumptions T02_handler_truncated_not_finished.
+
 (* roundTrip's discard: a header-only reply that arrives with a body (possible with a
    RoundTripper other than http.Transport) leads to no Write in the http.Handler variant, and
    the connection handler's header-only writer emits the same bytes with or without it. *)
